@@ -11,7 +11,7 @@ for sid in sorted(os.listdir(f"{V}/seeded")):
         continue
     meta = json.load(open(f"{d}/meta.json"))
     pid = meta["property"]
-    subprocess.run(["git", "-C", "/repo", "checkout", "-q", "--", "."], check=True)
+    subprocess.run(["git", "-C", "/repo", "checkout", "-q", "--", "."], check=True); subprocess.run(["git", "-C", "/repo", "clean", "-fdq", "src"], check=True)
     a = subprocess.run(["git", "-C", "/repo", "apply", f"{d}/patch.diff"], capture_output=True, text=True)
     if a.returncode != 0:
         rows.append((sid, pid, meta.get("detected_by_check"), "patch-does-not-apply"))
@@ -23,7 +23,7 @@ for sid in sorted(os.listdir(f"{V}/seeded")):
             r = subprocess.run([f"{V}/check", pid], capture_output=True, text=True, env=dict(os.environ, VERIF_NO_REPLAY="1", VERIF_EVIDENCE_DIR="/verif/.cache/seed-evidence"), cwd=V)
             out, rc = r.stdout, r.returncode
     finally:
-        subprocess.run(["git", "-C", "/repo", "checkout", "-q", "--", "."], check=True)
+        subprocess.run(["git", "-C", "/repo", "checkout", "-q", "--", "."], check=True); subprocess.run(["git", "-C", "/repo", "clean", "-fdq", "src"], check=True)
     got = {0: "no", 1: "yes", 2: "undecided", None: "no"}.get(rc, f"exit{rc}")
     first = next((l for l in out.splitlines() if l.startswith(("VIOLATION", "UNDECIDED", "OK"))), "")[:160]
     rows.append((sid, pid, meta.get("detected_by_check"), got, first))
